@@ -325,11 +325,11 @@ theorem C06_debuglink_bytes_refines {σ β : Type} (h : Hasher σ) (chunk : Nat)
 
 /-- What `load_symbol_map` guarantees for Breakpad candidates with sidecars: the id that the map *reports* is the
 requested one and it is the reported id of candidate `k`; the lookups are served from candidate `k`'s own text. -/
-theorem C06_symindex_reported (parseId : List UInt8 → Option (DebugId ι)) (native : List ι) (req : DebugId ι)
-    (cs : List BpCand) (k : Nat) (m : SymInfo ι) (b : Option (DebugId ι))
-    (h : loadSymbolMapBp parseId native (some req) cs = (.ok k m, b)) :
-    m.debugId = req ∧ ∃ c, cs[k]? = some c ∧ c.reported parseId = some req ∧ b = c.own parseId := by
-  simp only [loadSymbolMapBp] at h
+theorem C06_symindex_reported (parseId : List UInt8 → Option (DebugId ι)) (utf8 : List UInt8 → Bool) (native : List ι)
+    (req : DebugId ι) (cs : List BpCand) (k : Nat) (m : SymInfo ι) (b : Option (DebugId ι))
+    (h : loadSymbolMapBp parseId utf8 native (some req) cs = (.ok k m, b)) :
+    m.debugId = req ∧ ∃ c, cs[k]? = some c ∧ c.reported parseId utf8 = some req ∧ b = c.own parseId := by
+  simp only [loadSymbolMapBp, loadSymbolMapBpBy] at h
   split at h
   · rename_i k' m' hk
     simp only [Prod.mk.injEq, SymOut.ok.injEq] at h
@@ -341,58 +341,82 @@ theorem C06_symindex_reported (parseId : List UInt8 → Option (DebugId ι)) (na
     | some c0 =>
       simp only [hck, Option.map_some, Option.some.injEq] at hc
       subst hc
-      simp only [BpCand.toCandidate] at hl
-      cases hr : c0.reported parseId with
+      simp only [BpCand.toCandidateOf] at hl
+      cases hr : c0.reportedIf parseId utf8 (c0.sidecarUsed parseId utf8) with
       | none => simp [hr, Candidate.load, Load.toExcept] at hl
       | some d =>
         simp only [hr, Candidate.load, Load.toExcept, Except.ok.injEq] at hl
         subst hl
-        refine ⟨h1, c0, rfl, by rw [hr]; exact congrArg some h1, ?_⟩
+        refine ⟨h1, c0, rfl, by rw [BpCand.reported, hr]; exact congrArg some h1, ?_⟩
         rw [← hb, hck]; rfl
   · rename_i hne
     simp only [Prod.mk.injEq] at h
     exact absurd h.1 (hne k m)
 
-/-- A symbol map that is handed out serves its lookups from a `.sym` file of the requested build — for every sidecar,
-of whatever build: a sidecar is used only if its MODULE line is the beginning of the `.sym` file, and then both state
-the same id (`BpCand.own_eq_sideId_of_used`, which rests on `idToken_append`). No hypothesis about the sidecars. -/
-theorem C06_symindex_consistent (parseId : List UInt8 → Option (DebugId ι)) (native : List ι) (req : DebugId ι)
-    (cs : List BpCand) (k : Nat) (m : SymInfo ι) (b : Option (DebugId ι))
-    (h : loadSymbolMapBp parseId native (some req) cs = (.ok k m, b)) : b = some req := by
-  obtain ⟨_, c, _, hr, hb⟩ := C06_symindex_reported parseId native req cs k m b h
+/-- A symbol map that is handed out serves its lookups from a `.sym` file of the requested build — for EVERY sidecar:
+every module-info byte string (any number of MODULE lines, INFO lines, garbage, non-UTF-8), every `.sym` head, every id
+parser and UTF-8 predicate. A sidecar is used only if the first line of its module info is the beginning of the `.sym`
+file *and* states the id the index reports (the id of the LAST MODULE line of the module info); the `.sym`'s own first line
+then states that id too (`BpCand.own_eq_sideReported_of_used`, which rests on `idToken_append`). -/
+theorem C06_symindex_consistent (parseId : List UInt8 → Option (DebugId ι)) (utf8 : List UInt8 → Bool) (native : List ι)
+    (req : DebugId ι) (cs : List BpCand) (k : Nat) (m : SymInfo ι) (b : Option (DebugId ι))
+    (h : loadSymbolMapBp parseId utf8 native (some req) cs = (.ok k m, b)) : b = some req := by
+  obtain ⟨_, c, _, hr, hb⟩ := C06_symindex_reported parseId utf8 native req cs k m b h
   rw [hb]
-  simp only [BpCand.reported] at hr
+  simp only [BpCand.reported, BpCand.reportedIf] at hr
   split at hr
   · rename_i hu
-    exact BpCand.own_eq_sideId_of_used parseId c hu req hr
-  · exact hr
+    rw [BpCand.own_eq_sideReported_of_used parseId utf8 c hu]; exact hr
+  · exact lineId_some parseId utf8 _ req hr
 
-/-- Completeness of the comparison: a sidecar whose module info starts with exactly the `.sym`'s first line is used
-(whatever the rest of its tables says). -/
-theorem C06_symindex_same_line_used (c : BpCand) (info : List UInt8) (hs : c.side = .ok info)
-    (hne : firstLine info ≠ []) (heq : firstLine info = firstLine c.head) : c.sidecarUsed = true := by
-  simp only [BpCand.sidecarUsed, hs, Bool.and_eq_true, decide_eq_true_eq]
+/-- Completeness of the comparison: a sidecar whose module info is one MODULE line (plus lines that are no MODULE
+records) equal to the `.sym`'s first line is used — stated through the two ids: first line = the `.sym`'s first line,
+and the index reports what that line states. -/
+theorem C06_symindex_same_line_used (parseId : List UInt8 → Option (DebugId ι)) (utf8 : List UInt8 → Bool)
+    (c : BpCand) (info : List UInt8) (r : DebugId ι) (hs : c.side = .ok info)
+    (hne : firstLine info ≠ []) (heq : firstLine info = firstLine c.head)
+    (hrep : moduleInfoId parseId utf8 info = some r) (hfirst : lineId parseId utf8 (firstLine info) = some r) :
+    c.sidecarUsed parseId utf8 = true := by
+  have hpre : c.head.take (firstLine c.head).length = firstLine c.head := by
+    simp only [firstLine]
+    generalize c.head = l
+    induction l with
+    | nil => rfl
+    | cons a l ih =>
+      simp only [List.takeWhile_cons]
+      split
+      · simp [ih]
+      · rfl
+  simp only [BpCand.sidecarUsed, BpCand.sideReported, BpCand.sideFirstId, hs, hrep, hfirst, Bool.and_eq_true,
+    decide_eq_true_eq, and_true]
   refine ⟨by simpa using hne, ?_⟩
-  rw [heq]
-  simp only [firstLine]
-  generalize c.head = l
-  induction l with
-  | nil => rfl
-  | cons a l ih =>
-    simp only [List.takeWhile_cons]
-    split
-    · simp [ih]
-    · rfl
+  rw [heq]; exact hpre
 
-/-- Before the repair (3f61c23c) every parsable sidecar was used: `x.sym` with `MODULE L x A g` next to a `.symindex`
+/-- Before the first repair (3f61c23c) every parsable sidecar was used: `x.sym` with `MODULE L x A g` next to a `.symindex`
 whose module info is `MODULE L x B g` answers a request for build `B` with a map that reports `B` and serves the text
-of build `A`. (Ids are the raw tokens here: `parseId t = some ⟨t, 0⟩`.) -/
+of build `A`. (Ids are the raw tokens here: `parseId t = some ⟨t, 0⟩`; every line counts as UTF-8.) -/
 theorem C06_legacy_counterexample_stale_symindex :
     let parseId : List UInt8 → Option (DebugId (List UInt8)) := fun t => some ⟨t, 0⟩
     let symA : List UInt8 := [77, 79, 68, 85, 76, 69, 32, 76, 32, 120, 32, 65, 32, 103, 10, 70]
     let infoB : List UInt8 := [77, 79, 68, 85, 76, 69, 32, 76, 32, 120, 32, 66, 32, 103]
-    loadSymbolMapBpLegacy parseId [] (some ⟨[66], 0⟩) [⟨symA, .ok infoB⟩] = (.ok 0 ⟨⟨[66], 0⟩⟩, some ⟨[65], 0⟩)
-    ∧ loadSymbolMapBp parseId [] (some ⟨[66], 0⟩) [⟨symA, .ok infoB⟩] = (.single (.unmatched (some ⟨[65], 0⟩)), none) := by
+    loadSymbolMapBpLegacy parseId (fun _ => true) [] (some ⟨[66], 0⟩) [⟨symA, .ok infoB⟩] = (.ok 0 ⟨⟨[66], 0⟩⟩, some ⟨[65], 0⟩)
+    ∧ loadSymbolMapBp parseId (fun _ => true) [] (some ⟨[66], 0⟩) [⟨symA, .ok infoB⟩]
+        = (.single (.unmatched (some ⟨[65], 0⟩)), none) := by
+  decide
+
+/-- Under the rule of 3f61c23c alone (first line compared, reported id not): `x.sym` with `MODULE L x A g` next to a
+`.symindex` whose module info is `MODULE L x A g\nMODULE L x B g` — the first line is the `.sym`'s, the index reports the
+LAST MODULE line's id `B` — answers a request for `B` with a map that reports `B` and serves the text of build `A`.
+With d2664d76 the sidecar is ignored and the request fails. -/
+theorem C06_legacy_counterexample_two_module_lines :
+    let parseId : List UInt8 → Option (DebugId (List UInt8)) := fun t => some ⟨t, 0⟩
+    let lineA : List UInt8 := [77, 79, 68, 85, 76, 69, 32, 76, 32, 120, 32, 65, 32, 103]
+    let lineB : List UInt8 := [77, 79, 68, 85, 76, 69, 32, 76, 32, 120, 32, 66, 32, 103]
+    let symA : List UInt8 := lineA ++ [10, 70]
+    loadSymbolMapBpFirstLineOnly parseId (fun _ => true) [] (some ⟨[66], 0⟩) [⟨symA, .ok (lineA ++ [10] ++ lineB)⟩]
+        = (.ok 0 ⟨⟨[66], 0⟩⟩, some ⟨[65], 0⟩)
+    ∧ loadSymbolMapBp parseId (fun _ => true) [] (some ⟨[66], 0⟩) [⟨symA, .ok (lineA ++ [10] ++ lineB)⟩]
+        = (.single (.unmatched (some ⟨[65], 0⟩)), none) := by
   decide
 
 /-! ### improvement round: dyld shared cache entry points (lib.rs:472-545) -/
@@ -475,14 +499,19 @@ example : debugLinkFiles (⟨7, fun s b => s * 31 + b.toNat, id⟩ : Hasher Nat)
 private def pid : List UInt8 → Option (DebugId (List UInt8)) := fun t => some ⟨t, 0⟩
 private def lineA : List UInt8 := [77, 79, 68, 85, 76, 69, 32, 76, 32, 120, 32, 65, 32, 103]
 private def lineB : List UInt8 := [77, 79, 68, 85, 76, 69, 32, 76, 32, 120, 32, 66, 32, 103]
-example : loadSymbolMapBp pid [] (some ⟨[65], 0⟩) [⟨lineB ++ [10], .unreadable⟩, ⟨lineA ++ [10, 70], .ok (lineA ++ [10, 73])⟩]
+private def u8ok : List UInt8 → Bool := fun _ => true
+example : loadSymbolMapBp pid u8ok [] (some ⟨[65], 0⟩) [⟨lineB ++ [10], .unreadable⟩, ⟨lineA ++ [10, 70], .ok (lineA ++ [10, 73])⟩]
     = (.ok 1 ⟨⟨[65], 0⟩⟩, some ⟨[65], 0⟩) := by decide
-example : (⟨lineA ++ [10, 70], .ok (lineA ++ [10, 73])⟩ : BpCand).sidecarUsed = true
-    ∧ (⟨lineA ++ [10, 70], .ok lineB⟩ : BpCand).sidecarUsed = false
-    ∧ (⟨lineA ++ [10, 70], .unparsable⟩ : BpCand).sidecarUsed = false := by decide
-example : loadSymbolMapBp pid [] (some ⟨[66], 0⟩) [⟨lineA ++ [10], .ok lineB⟩, ⟨lineB ++ [10], .ok lineA⟩, ⟨lineB ++ [10], .unparsable⟩]
+example : (⟨lineA ++ [10, 70], .ok (lineA ++ [10, 73])⟩ : BpCand).sidecarUsed pid u8ok = true
+    ∧ (⟨lineA ++ [10, 70], .ok lineB⟩ : BpCand).sidecarUsed pid u8ok = false
+    ∧ (⟨lineA ++ [10, 70], .unparsable⟩ : BpCand).sidecarUsed pid u8ok = false
+    -- two MODULE lines: same id twice is fine, another id last is not, another id first does not even match the .sym
+    ∧ (⟨lineA ++ [10, 70], .ok (lineA ++ [10] ++ lineA)⟩ : BpCand).sidecarUsed pid u8ok = true
+    ∧ (⟨lineA ++ [10, 70], .ok (lineA ++ [10, 73, 10] ++ lineB)⟩ : BpCand).sidecarUsed pid u8ok = false
+    ∧ (⟨lineA ++ [10, 70], .ok (lineB ++ [10] ++ lineA)⟩ : BpCand).sidecarUsed pid u8ok = false := by decide
+example : moduleInfoId pid u8ok (lineA ++ [10, 73, 10] ++ lineB ++ [10]) = some ⟨[66], 0⟩ := by decide
+example : loadSymbolMapBp pid u8ok [] (some ⟨[66], 0⟩) [⟨lineA ++ [10], .ok lineB⟩, ⟨lineB ++ [10], .ok lineA⟩, ⟨lineB ++ [10], .unparsable⟩]
     = (.ok 1 ⟨⟨[66], 0⟩⟩, some ⟨[66], 0⟩) := by decide
--- dyld: the first cache holds another build, the second the requested one
 example : loadForDyldCacheImage (ι := Nat) (fun (x : Nat) => some ⟨x, 0⟩) (some (.debugId idA)) [.ok 0xB, .unreadable, .ok 0xA]
     = .ok 0xA := by decide
 end
